@@ -68,10 +68,13 @@ def alphabet(w, tier):
             if tier != 'thorough' and ring in (-1, 1 << 62) and ip != 0:
                 continue
             add(f'run(ring={ring},ip={ip})', lambda m, c, ring=ring, ip=ip: c['run'](m, ring, ip, None))
-    for poke in ('get0', 'set0', 'set_far', 'set_top', 'get_top', 'add_segment', 'reinit', 'set_words_wrap', 'run_nested'):
+    for poke in ('get0', 'set0', 'set_far', 'set_top', 'get_top', 'add_segment', 'reinit', 'reinit_rejected', 'set_words_wrap', 'run_nested'):
         add(f'run(device:{poke})', lambda m, c, poke=poke: c['run'](m, 2, 0, poke))
     add('__init__ again', lambda m, c: m.__init__(c['w']))
     add('__init__ other width', lambda m, c: m.__init__(8 if c['w'] != 8 else 64, flat_max_words=3))
+    add('__init__ rejected (bad width)', lambda m, c: m.__init__(7))
+    add('__init__ rejected (no arguments)', lambda m, c: m.__init__())
+    add('__init__ rejected (bad keyword)', lambda m, c: m.__init__(c['w'], no_such_option=1))
     add('5000 segments descending', lambda m, c: [m.add_segment(2 * (6000 - i), 2) for i in range(5000)])
     add('attrs', lambda m, c: (m.storage_mode, m.last_run_op_count, m.speculation_stats, getattr(m, 'allocated_bytes', None)))
     return A
@@ -111,6 +114,8 @@ def make_ctx(w):
                         m.add_segment(1 << 20, 4)
                     elif poke == 'reinit':
                         m.__init__(w)
+                    elif poke == 'reinit_rejected':
+                        m.__init__(7)
                     elif poke == 'set_words_wrap':
                         m.set_words(U64 - 2, [1, 2, 3])
                     elif poke == 'run_nested':
@@ -145,10 +150,18 @@ def sequences(tier, w, deep=True):
     # depth 3: (load | add_segment at 0) x anything x anything is too big; take load x run x anything and load x anything x run
     if not deep:
         return
+    rejected_inits = [i for i, (nm, _) in enumerate(A) if nm.startswith('__init__ rejected')]
     for l in loads:
         for r in runs:
             for x in range(n):
                 yield (l, r, x)
+        # a live object whose re-initialisation is rejected, then anything (also after a run built the flat array)
+        for ri in rejected_inits:
+            for x in range(n):
+                yield (l, ri, x)
+            for r in runs[::5]:
+                for x in range(0, n, 3):
+                    yield (l, r, ri, x)
                 if tier == 'thorough':
                     yield (l, x, r)
     if tier == 'thorough':
